@@ -26,6 +26,176 @@ let show_all (r : n list list res) : string = match r with
 let show_ns (l : n list) : string = if l = [] then "-" else String.concat "," (List.map (fun x -> string_of_int (int_of_n x)) l)
 let b2s b = if b then "t" else "f"
 
+
+(* ---------- CBOR tie: shapes and values in the text form of harness/cmd/c07/cbor.go ---------- *)
+let string_of_nbytes (l : n list) : string = String.concat "" (List.map (fun b -> String.make 1 (Char.chr (int_of_n b))) l)
+let nbytes_of_string (s : string) : n list = List.init (String.length s) (fun i -> byte_tab.(Char.code s.[i]))
+exception Parse of string
+let is_hex c = (c >= '0' && c <= '9') || (c >= 'a' && c <= 'f')
+let is_key c = (c >= '0' && c <= '9') || (c >= 'a' && c <= 'z') || (c >= 'A' && c <= 'Z') || c = '_' || c = '-'
+let scan_while (s : string) (i : int ref) (p : char -> bool) : string =
+  let j = ref !i in
+  while !j < String.length s && p s.[!j] do incr j done;
+  let r = String.sub s !i (!j - !i) in i := !j; r
+let expect s i c = if !i < String.length s && s.[!i] = c then incr i else raise (Parse (Printf.sprintf "expected %c at %d" c !i))
+let peek s i = if !i < String.length s then s.[!i] else '\000'
+
+let rec parse_ty (s : string) (i : int ref) : ty =
+  let c = peek s i in incr i;
+  match c with
+  | 'u' -> TUint (n_of_int (int_of_string (scan_while s i (fun c -> c >= '0' && c <= '9'))))
+  | 'a' -> TByteArr (n_of_int (int_of_string (scan_while s i (fun c -> c >= '0' && c <= '9'))))
+  | 'b' -> TBool | 's' -> TText | 'o' -> TBin | 'y' -> TByteSlice | 'f' -> TFelt
+  | 'p' -> expect s i '('; let t = parse_ty s i in expect s i ')'; TPtr t
+  | 'l' -> expect s i '('; let t = parse_ty s i in expect s i ')'; TSlice t
+  | 'm' -> expect s i '('; let k = parse_ty s i in expect s i ','; let v = parse_ty s i in expect s i ')'; TMap (k, v)
+  | 'S' ->
+      expect s i '(';
+      let fs = ref [] in
+      while peek s i <> ')' do
+        if !fs <> [] then expect s i ';';
+        let key =
+          if peek s i = '#' then begin incr i;
+            let neg = peek s i = '-' in if neg then incr i;
+            let d = int_of_string (scan_while s i (fun c -> c >= '0' && c <= '9')) in
+            FInt (z_of_int (if neg then - d else d)) end
+          else FText (nbytes_of_string (scan_while s i is_key)) in
+        let omit = peek s i = '?' in if omit then incr i;
+        expect s i ':';
+        let t = parse_ty s i in
+        fs := ((key, omit), t) :: !fs
+      done;
+      expect s i ')'; TStruct (List.rev !fs)
+  | 'I' ->
+      expect s i '(';
+      let alts = ref [] in
+      while peek s i <> ')' do
+        if !alts <> [] then expect s i ';';
+        let tag = n_of_hex (scan_while s i is_hex) in
+        expect s i ':';
+        let t = parse_ty s i in
+        alts := (tag, t) :: !alts
+      done;
+      expect s i ')'; TIface (List.rev !alts)
+  | _ -> raise (Parse (Printf.sprintf "bad shape at %d" (!i - 1)))
+
+let rec show_ty (b : Buffer.t) (t : ty) : unit =
+  match t with
+  | TUint n -> Buffer.add_string b ("u" ^ string_of_int (int_of_n n))
+  | TByteArr n -> Buffer.add_string b ("a" ^ string_of_int (int_of_n n))
+  | TBool -> Buffer.add_char b 'b' | TText -> Buffer.add_char b 's' | TBin -> Buffer.add_char b 'o'
+  | TByteSlice -> Buffer.add_char b 'y' | TFelt -> Buffer.add_char b 'f'
+  | TPtr t -> Buffer.add_string b "p("; show_ty b t; Buffer.add_char b ')'
+  | TSlice t -> Buffer.add_string b "l("; show_ty b t; Buffer.add_char b ')'
+  | TMap (k, v) -> Buffer.add_string b "m("; show_ty b k; Buffer.add_char b ','; show_ty b v; Buffer.add_char b ')'
+  | TStruct fs ->
+      Buffer.add_string b "S(";
+      List.iteri (fun j ((k, omit), t) ->
+        if j > 0 then Buffer.add_char b ';';
+        (match k with
+         | FText s -> Buffer.add_string b (string_of_nbytes s)
+         | FInt z -> Buffer.add_char b '#'; Buffer.add_string b (string_of_int (int_of_z z)));
+        if omit then Buffer.add_char b '?';
+        Buffer.add_char b ':'; show_ty b t) fs;
+      Buffer.add_char b ')'
+  | TIface alts ->
+      Buffer.add_string b "I(";
+      List.iteri (fun j (tag, t) ->
+        if j > 0 then Buffer.add_char b ';';
+        Buffer.add_string b (hex_of_n tag); Buffer.add_char b ':'; show_ty b t) alts;
+      Buffer.add_char b ')'
+
+let hexbytes (s : string) (i : int ref) : n list = let h = scan_while s i is_hex in if h = "" then [] else bytes_of_hex h
+
+let rec parse_val (s : string) (i : int ref) : val0 =
+  let c = peek s i in
+  match c with
+  | 'T' -> incr i; VBool true
+  | 'F' -> incr i; VBool false
+  | '~' -> incr i; VNil
+  | '"' -> incr i; VText (hexbytes s i)
+  | 'x' -> incr i; VBin (hexbytes s i)
+  | '<' -> incr i;
+      let a = n_of_hex (scan_while s i is_hex) in expect s i '.';
+      let b = n_of_hex (scan_while s i is_hex) in expect s i '.';
+      let c = n_of_hex (scan_while s i is_hex) in expect s i '.';
+      let d = n_of_hex (scan_while s i is_hex) in expect s i '>'; VFelt (a, b, c, d)
+  | '[' -> incr i;
+      let l = ref [] in
+      while peek s i <> ']' do
+        if !l <> [] then expect s i ',';
+        l := parse_val s i :: !l
+      done; incr i; VList (List.rev !l)
+  | '(' -> incr i;
+      let l = ref [] in
+      while peek s i <> ')' do
+        if !l <> [] then expect s i ',';
+        l := parse_val s i :: !l
+      done; incr i; VStruct (List.rev !l)
+  | '{' -> incr i;
+      let l = ref [] in
+      while peek s i <> '}' do
+        if !l <> [] then expect s i ',';
+        let k = parse_val s i in expect s i '=';
+        let v = parse_val s i in
+        l := (k, v) :: !l
+      done; incr i; VMap (List.rev !l)
+  | '@' -> incr i;
+      let tag = n_of_hex (scan_while s i is_hex) in expect s i ':';
+      VIface (tag, parse_val s i)
+  | c when is_hex c -> VUint (n_of_hex (scan_while s i is_hex))
+  | _ -> raise (Parse (Printf.sprintf "bad value at %d" !i))
+
+let rec show_val (b : Buffer.t) (v : val0) : unit =
+  let list_sep l f = List.iteri (fun j x -> if j > 0 then Buffer.add_char b ','; f x) l in
+  let hexs l = if l <> [] then Buffer.add_string b (hex_of_bytes l) in
+  match v with
+  | VUint n -> Buffer.add_string b (hex_of_n n)
+  | VBool t -> Buffer.add_char b (if t then 'T' else 'F')
+  | VText l -> Buffer.add_char b '"'; hexs l
+  | VBin l -> Buffer.add_char b 'x'; hexs l
+  | VFelt (a, c, d, e) -> Buffer.add_string b ("<" ^ hex_of_n a ^ "." ^ hex_of_n c ^ "." ^ hex_of_n d ^ "." ^ hex_of_n e ^ ">")
+  | VNil -> Buffer.add_char b '~'
+  | VList l -> Buffer.add_char b '['; list_sep l (show_val b); Buffer.add_char b ']'
+  | VStruct l -> Buffer.add_char b '('; list_sep l (show_val b); Buffer.add_char b ')'
+  | VMap l -> Buffer.add_char b '{'; list_sep l (fun (k, x) -> show_val b k; Buffer.add_char b '='; show_val b x); Buffer.add_char b '}'
+  | VIface (tag, x) -> Buffer.add_char b '@'; Buffer.add_string b (hex_of_n tag); Buffer.add_char b ':'; show_val b x
+
+let ty_memo : (string, ty) Hashtbl.t = Hashtbl.create 64
+let ty_of_string s =
+  match Hashtbl.find_opt ty_memo s with
+  | Some t -> t
+  | None -> let i = ref 0 in let t = parse_ty s i in if !i <> String.length s then raise (Parse "trailing shape text"); Hashtbl.add ty_memo s t; t
+let val_of_string s = let i = ref 0 in let v = parse_val s i in if !i <> String.length s then raise (Parse "trailing value text"); v
+let string_of_ty t = let b = Buffer.create 256 in show_ty b t; Buffer.contents b
+let string_of_val v = let b = Buffer.create 1024 in show_val b v; Buffer.contents b
+
+let cbor_cmd (ws : string list) : string =
+  try match ws with
+  | ["cshape"; name] ->
+      (match shape_by_name (nbytes_of_string name) with Some t -> string_of_ty t | None -> "unknown")
+  | ["cenc"; sh; v] ->
+      let t = ty_of_string sh in
+      let v = val_of_string v in
+      if not (shape_ok t) then "badshape x x"
+      else if not (has_type t v) then "illtyped x x"
+      else begin
+        let bs = marshal t v in
+        let rt = (match unmarshal t bs with Some w -> w = v | None -> false) in
+        "ok " ^ hex_of_bytes bs ^ " " ^ b2s rt end
+  | ["cdec"; sh; h] ->
+      let t = ty_of_string sh in
+      (match unmarshal t (bytes_of_hex h) with Some v -> "some " ^ string_of_val v | None -> "none")
+  | ["cgen"; h] ->
+      let d = bytes_of_hex h in
+      (match decode d with
+       | Some (x, rest) ->
+           let e = encode x in
+           "some " ^ hex_of_bytes e ^ " " ^ hex_of_bytes rest ^ " " ^ (if wf_item x && e @ rest = d then "exact" else "inexact")
+       | None -> "none")
+  | _ -> "bad-request"
+  with Parse m -> "parse-error " ^ m | Failure m -> "parse-error " ^ m | Invalid_argument m -> "parse-error " ^ m
+
 let () =
   read_lines (fun line ->
     (match words line with
@@ -53,5 +223,6 @@ let () =
      | ["dec"; "bni"; h] -> print_endline (match bni_dec (bytes_of_hex h) with Some (x, y) -> hex_of_n x ^ " " ^ hex_of_n y | None -> "none")
      | ["lex"; a; b] -> print_endline (b2s (lex_lt (bytes_of_hex a) (bytes_of_hex b)))
      | ["pre"; a; b] -> print_endline (b2s (has_prefix (bytes_of_hex a) (bytes_of_hex b)))
+     | ("cshape" | "cenc" | "cdec" | "cgen") :: _ as ws -> print_endline (cbor_cmd ws)
      | _ -> print_endline ("bad-request " ^ line));
     flush stdout)
